@@ -9,6 +9,7 @@ destination variables and the block's own scratch changes - no stale carry / tab
 Residue closure: every distinct scratch residue a block can leave is re-explored against every
 operand tuple; mixed sequences of blocks are compared with the composed model.
 """
+import itertools
 import sys
 
 from fjv.runner import Run, Sieve, parse_args, pmap, load_replay, main_guard
@@ -54,6 +55,7 @@ def make_tasks(tier):
         for gi in range(len(spec_groups(n))):
             tasks.append((tier, 64 if n % 2 else 32, n, False, gi, 64 if tier != 'thorough' else 256))
     tasks.append((tier, 64, 1, 'mixed', 0, 0))
+    tasks += [('pending-carries', tier, w_) for w_ in (64, 32)]
     # table placement: the six truth tables allocated one by one (hex.tables.init_shared + hex.<t>.init, what each macro's documentation asks
     # for) in every rotation of the library's order, starting `filler` ops after a 1024-op boundary - so each table is met at several
     # placements relative to its own alignment, not only where hex.init happens to put it
@@ -67,10 +69,83 @@ def make_tasks(tier):
 TABLES = ('or', 'and', 'mul', 'cmp', 'add', 'sub')
 
 
+def work_pending_carries(task):
+    """the documented single-hex primitives leave a carry pending on purpose (hex.add: the add carry; hex.add_mul res, x: the high nibble of
+    its product). every n-hex macro that follows must start from a clean carry: for each of the 16 values of the pending mul carry and for a
+    pending add carry, each n-hex consumer (mul10, add_mul n, mul, add, sub, inc) gives its documented result. one program per width."""
+    from fjv.enginecheck import scratch
+    from fjv.asm import assemble_text
+    from flipjump.interpreter import fjm_run
+    from flipjump.interpreter.io_devices.FixedIO import FixedIO
+    _, tier, w = task
+    sieve = Sieve(PROP, MATCHERS)
+    stats = {'transitions': 0, 'states': 0, 'blocks': 0}
+    code, data, expected = ['stl.startup_and_init_all'], [], []
+    k = [0]
+
+    def var(n, value):
+        k[0] += 1
+        data.append(f'pc{k[0]}: hex.vec {n}, {value:#x}')
+        return f'pc{k[0]}'
+
+    def show(n, name, what, value):
+        code.append(f'hex.print_uint {n}, {name}, 1, 0')
+        code.append("stl.output '\\n'")
+        expected.append((what, value & ((1 << (4 * n)) - 1)))
+    # one (r0, x0, b) per value of the pending carry (r0 + x0*b) >> 4
+    pend = {}
+    for r0, x0, b in itertools.product(range(16), repeat=3):
+        pend.setdefault((r0 + x0 * b) >> 4, (r0, x0, b))
+    assert sorted(pend) == list(range(16))
+    n = 3
+    for carry, (r0, x0, b) in sorted(pend.items()) + [('add', (0, 0, 0))]:
+        consumers = [('mul10', lambda y: [f'hex.mul10 {n}, {y}'], 0x1c7 * 10, 0x1c7, None),
+                     ('add_mul', lambda y: [f'hex.add_mul {n}, {y}, {var(n, 0x234)}, {var(1, 0x3)}'], 0x111 + 0x234 * 3, 0x111, None),
+                     ('mul', lambda y: [f'hex.mul {n}, {y}, {var(n, 0x01b)}, {var(n, 0x025)}'], 0x01b * 0x025, 0xabc, None),
+                     ('add', lambda y: [f'hex.add {n}, {y}, {var(n, 0x0ff)}'], 0x301 + 0x0ff, 0x301, None),
+                     ('sub', lambda y: [f'hex.sub {n}, {y}, {var(n, 0x0ff)}'], 0x301 - 0x0ff, 0x301, None),
+                     ('inc', lambda y: [f'hex.inc {n}, {y}'], 0x2ff + 1, 0x2ff, None)]
+        for cname, call, want, start, _ in consumers:
+            if carry == 'add':
+                d_, s_ = var(1, 0xf), var(1, 0x3)
+                code.extend(['hex.add.clear_carry', f'hex.add {d_}, {s_}'])   # single-hex add that overflows: carry pending
+                tag = 'a pending add carry'
+            else:
+                r_, x_, b_ = var(1, r0), var(1, x0), var(1, b)
+                code.extend(['hex.mul.clear_carry', f'hex.xor hex.mul.dst, {b_}', f'hex.add_mul {r_}, {x_}', f'hex.xor hex.mul.dst, {b_}'])
+                show(1, r_, f'single-hex add_mul {r0:#x}+{x0:#x}*{b:#x} (low hex)', r0 + x0 * b)
+                tag = f'a pending mul carry of {carry:#x}'
+            y = var(n, start)
+            code.extend(call(y))
+            show(n, y, f'hex.{cname} right after {tag}', want)
+    text = '\n'.join(code + ['stl.loop'] + data) + '\n'
+    wd = scratch()
+    out = wd / f'pending-{w}.fjm'
+    assemble_text(text, out, wd, w=w, version=1, use_stl=True, werror=False)
+    dev = FixedIO(b'')
+    st = fjm_run.run(out, io_device=dev, print_time=False) if 'print_time' in fjm_run.run.__code__.co_varnames else fjm_run.run(out, io_device=dev)
+    got = dev.get_output(allow_incomplete_output=True).decode('latin1').split('\n')
+    stats['transitions'] = stats['states'] = len(expected)
+    stats['blocks'] = 1
+    for i, (what, value) in enumerate(expected):
+        line = got[i].strip().lower() if i < len(got) else '<missing>'
+        try:
+            ok = int(line, 16) == value
+        except ValueError:
+            ok = False
+        if not ok:
+            sieve.add({'kind': 'a pending single-hex carry leaks into the next macro', 'class': f'pending carry: {what.split(" right after ")[0]}',
+                       'case': {'w': w, 'family': 'pending-carries', 'step': what, 'program_head': text[:300]}, 'expected': hex(value), 'observed': line,
+                       'summary': f'w={w} {what}: printed {line!r} instead of {value:#x} (termination {st.termination_cause})'})
+    return stats, sieve.result(), {'w': w, 'pending_carry_steps': len(expected)}, len(expected)
+
+
 def work(task):
     from fjv.enginecheck import scratch
     from fjv.stlharness import Harness
     from fjv import stlcheck
+    if task[0] == 'pending-carries':
+        return work_pending_carries(task)
     tier, w, n, single, gi, budget = task
     sieve = Sieve(PROP, MATCHERS)
     stats = {'transitions': 0, 'states': 0, 'blocks': 0}
